@@ -1,19 +1,35 @@
 /- GENERATED: instance obligations for one logic, discharged by kernel evaluation.
-   `X ⊆ known`: every failing row is a committed known finding (Ptx/Gen/Known.lean). -/
+   `S` = the logic with its DOCUMENTED tables (Ptx/Sem/Spec.lean); rules, closure, trunk and frames
+   are what the translator read off the code.  `X ⊆ known`: every failing row is a committed
+   known finding (Ptx/Gen/Known.lean, generated from known_findings.json). -/
 import Ptx.Gen.L_S4FDE
 import Ptx.Gen.Known
 import Ptx.Sem.Subset
+import Ptx.Props.C01
+import Ptx.Gen.L_FDE
 namespace Ptx.Gen.Obl.S4FDE
 open Ptx
 
-theorem tables_total : Gen.S4FDE.tablesTotalB = true := by decide +kernel
-theorem rules_exact : subsetB Gen.S4FDE.badRules (Known.badRules "S4FDE") = true := by decide +kernel
-theorem rules_sound : subsetB Gen.S4FDE.unsoundRules (Known.unsoundRules "S4FDE") = true := by decide +kernel
-theorem rules_total : subsetB Gen.S4FDE.missingRules (Known.missingRules "S4FDE") = true := by decide +kernel
-theorem rules_local : Gen.S4FDE.nonLocalRules = [] := by decide +kernel
-theorem closure_total : Gen.S4FDE.closureTotalB = true := by decide +kernel
-theorem closure_exact : subsetB Gen.S4FDE.badClosure (Known.badClosure "S4FDE") = true := by decide +kernel
-theorem read_total : Gen.S4FDE.readTotalB = true := by decide +kernel
-theorem read_exact : subsetB Gen.S4FDE.badRead (Known.badRead "S4FDE") = true := by decide +kernel
+/-- a modal / first-order extension has exactly the truth-functional tables of its base (FDE) -/
+theorem base_tables : Gen.S4FDE.tables.sameTF Gen.FDE.tables = true := by decide +kernel
+theorem spec_defined : Gen.S4FDE.specDefinedB = true := by decide +kernel
+theorem tables_spec : subsetB Gen.S4FDE.tableDiff (Known.tableDiff "S4FDE") = true := by decide +kernel
+theorem defined_ops : Gen.S4FDE.tables.definedOpsBad = [] := by decide +kernel
+theorem tables_total : Gen.S4FDE.sem.tablesTotalB = true := by decide +kernel
+theorem rules_exact : subsetB Gen.S4FDE.sem.badRules (Known.badRules "S4FDE") = true := by decide +kernel
+theorem rules_sound : subsetB Gen.S4FDE.sem.unsoundRules (Known.unsoundRules "S4FDE") = true := by decide +kernel
+theorem rules_total : subsetB Gen.S4FDE.sem.missingRules (Known.missingRules "S4FDE") = true := by decide +kernel
+theorem rules_local : Gen.S4FDE.sem.nonLocalRules = [] := by decide +kernel
+theorem closure_total : Gen.S4FDE.sem.closureTotalB = true := by decide +kernel
+theorem closure_exact : subsetB Gen.S4FDE.sem.badClosure (Known.badClosure "S4FDE") = true := by decide +kernel
+theorem read_total : Gen.S4FDE.sem.readTotalB = true := by decide +kernel
+theorem read_exact : subsetB Gen.S4FDE.sem.badRead (Known.badRead "S4FDE") = true := by decide +kernel
+theorem sound_core : Gen.S4FDE.sem.soundCoreB = true := by decide +kernel
+
+/-- C01 for this logic: a closed tableau reached by any legal derivation has no countermodel. -/
+theorem c01_valid_sound (arg : Argument) (t : Tableau)
+    (hd : Deriv Gen.S4FDE.sem.soundPart.noQuantPart (trunk Gen.S4FDE.sem arg) t) (hclosed : t.allClosed = true)
+    (M : Struct) (hM : M.Interp Gen.S4FDE.sem) (e : Env M.D) (w0 : M.W) : ¬ Countermodel Gen.S4FDE.sem M e w0 arg :=
+  Props.C01.C01_valid_sound_partial Gen.S4FDE.sem sound_core arg t hd hclosed M hM e w0
 
 end Ptx.Gen.Obl.S4FDE
